@@ -156,6 +156,16 @@ def run(ctx):
             for t in (1, 2):
                 vecs.append({"id": "badrec-%s-%d-t%d" % (cmd, k, t), "fam": "pipe", "sig": "bad-record:" + cmd, "cmd": cmd, "N": 4, "T": t,
                              "mode": "badrec", "badat": k})
+    # the same with the records in front of the bad one delivered to the writer in every other order (early arrivals parked
+    # in the re-ordering buffer when the error comes)
+    import itertools
+    for cmd in ["toma", "samvar", "variants", "snps", "udlist"]:
+        for k in (2, 3):
+            for oi, order in enumerate(itertools.permutations(range(k))):
+                if list(order) == list(range(k)) or (quick and (oi + ctx.seed) % 2):
+                    continue
+                vecs.append({"id": "badrec-%s-%d-order%s" % (cmd, k, "".join(map(str, order))), "fam": "pipe", "sig": "bad-record:" + cmd,
+                             "cmd": cmd, "N": 4, "T": 4, "mode": "gate", "order": list(order), "badat": k})
     obs = kernel.run_vectors(ctx, "pipe", vecs, tag="badrec")
     prows, _, _ = kernel.validate_obs(ctx, "ObsC18", "ObsC18.cfg", obs, tag="badrec")
     ok = [r for r in prows if not r["obs"].get("timeout") and not r["obs"].get("panic") and not r["obs"].get("refrun_failed")]
